@@ -422,6 +422,9 @@ func (w *World) applyTx(h int64, idx int, p *TxPlan, r *abci.ResponseDeliverTx, 
 	if p.Tampered && !ok {
 		w.tamperedAt[h] = true
 	}
+	if _, seen := m.Executed[hashHex]; seen && !ok {
+		w.duplicateAt[h] = true // a re-submission of a signed tx that already took effect
+	}
 
 	if !ok && tx.Type == trxVoting && !p.Tampered && p.ReplayOf < 0 {
 		w.checkVoteShouldCount(h, idx, p, r, gov)
